@@ -278,29 +278,34 @@ func extractAddRoutes(f *ast.File) (notFound string, methodNotAllowed string) {
 	return
 }
 
-// layers of a handler expression, outermost first
+// ---- the handler chain of NewAPIWithHost, per value of cfg.Tracing ----
+//
+// NewAPIWithHost is executed symbolically, once with cfg.Tracing = false and once with true. Every variable
+// whose value is a handler expression is tracked by name (so an intermediate handler may be given a name),
+// `if cfg.Tracing {…} [else {…}]` is followed according to the run, any other conditional must not assign a
+// handler variable, and the chain is what the Handler field of the http.Server literal evaluates to at the end.
+// A handler expression is: the router variable, a tracked variable, basicAuthHandler(cfg.BasicAuthCredentials, h),
+// cors.New(*cfg.corsOptions()).Handler(h), handlers.LoggingHandler(w, h), &ochttp.Handler{…, Handler: h, …}.
 type env struct {
-	handler []string // current value of variable `handler`
-	strict  bool
-	sawRtr  bool
+	vars   map[string][]string // handler-valued variables -> layers, outermost first
+	router string              // name of the router variable
+	server string              // name of the variable holding the http.Server
+	strict bool
 }
 
-func (ev *env) layers(e ast.Expr) []string {
+// layers evaluates a handler expression; ok=false when the expression is not one.
+func (ev *env) layers(e ast.Expr) (l []string, ok bool) {
 	switch x := e.(type) {
+	case *ast.ParenExpr:
+		return ev.layers(x.X)
 	case *ast.Ident:
-		switch x.Name {
-		case "router":
-			if !ev.sawRtr {
-				die("router used before its definition")
-			}
-			return []string{"router"}
-		case "handler":
-			if ev.handler == nil {
-				die("handler used before its definition")
-			}
-			return append([]string{}, ev.handler...)
+		if x.Name == ev.router && ev.router != "" {
+			return []string{"router"}, true
 		}
-		die("unrecognised handler identifier %s", x.Name)
+		if v, found := ev.vars[x.Name]; found {
+			return append([]string{}, v...), true
+		}
+		return nil, false
 	case *ast.CallExpr:
 		fn := render(x.Fun)
 		switch {
@@ -308,54 +313,86 @@ func (ev *env) layers(e ast.Expr) []string {
 			if len(x.Args) != 2 || render(x.Args[0]) != "cfg.BasicAuthCredentials" {
 				die("basicAuthHandler: unrecognised arguments %s", render(x))
 			}
-			return append([]string{"basicAuth"}, ev.layers(x.Args[1])...)
+			in, ok := ev.layers(x.Args[1])
+			if !ok {
+				die("basicAuthHandler wraps something that is not a handler expression: %s", render(x.Args[1]))
+			}
+			return append([]string{"basicAuth"}, in...), true
 		case fn == "cors.New(*cfg.corsOptions()).Handler":
 			if len(x.Args) != 1 {
 				die("cors Handler: arguments")
 			}
-			return append([]string{"cors"}, ev.layers(x.Args[0])...)
+			in, ok := ev.layers(x.Args[0])
+			if !ok {
+				die("cors Handler wraps something that is not a handler expression: %s", render(x.Args[0]))
+			}
+			return append([]string{"cors"}, in...), true
 		case fn == "handlers.LoggingHandler":
 			if len(x.Args) != 2 {
 				die("LoggingHandler: arguments")
 			}
-			return append([]string{"logging"}, ev.layers(x.Args[1])...)
+			in, ok := ev.layers(x.Args[1])
+			if !ok {
+				die("LoggingHandler wraps something that is not a handler expression: %s", render(x.Args[1]))
+			}
+			return append([]string{"logging"}, in...), true
 		}
-		die("unrecognised handler wrapper %s", fn)
+		return nil, false
 	case *ast.UnaryExpr:
 		if x.Op == token.AND {
 			if cl, ok := x.X.(*ast.CompositeLit); ok && render(cl.Type) == "ochttp.Handler" {
 				for _, el := range cl.Elts {
 					kv := el.(*ast.KeyValueExpr)
 					if render(kv.Key) == "Handler" {
-						return append([]string{"ochttp"}, ev.layers(kv.Value)...)
+						in, ok := ev.layers(kv.Value)
+						if !ok {
+							die("ochttp.Handler wraps something that is not a handler expression: %s", render(kv.Value))
+						}
+						return append([]string{"ochttp"}, in...), true
 					}
 				}
 				die("ochttp.Handler literal without Handler field")
 			}
 		}
-		die("unrecognised handler expression %s", render(e))
+		return nil, false
 	}
-	die("unrecognised handler expression %s", render(e))
-	return nil
+	return nil, false
 }
 
-// NewAPIWithHost: follow `router`, `handler`, and the http.Server literal.
-func extractChain(f *ast.File) (plain, tracing []string, strict bool) {
-	fd := findFunc(f, "NewAPIWithHost", false)
-	if fd == nil {
-		die("NewAPIWithHost not found")
-	}
-	ev := &env{}
-	var handlerTracing []string
-	serverSeen := false
-	routesAdded := false
-	for _, st := range fd.Body.List {
+// mentionsHandler: does the expression mention the router or a tracked handler variable?
+func (ev *env) mentionsHandler(e ast.Expr) bool {
+	found := false
+	ast.Inspect(e, func(n ast.Node) bool {
+		if id, ok := n.(*ast.Ident); ok {
+			if _, tracked := ev.vars[id.Name]; tracked || (id.Name == ev.router && ev.router != "") {
+				found = true
+			}
+		}
+		return true
+	})
+	return found
+}
+
+// exec runs a statement list for one value of cfg.Tracing; returns the chain of the http.Server literal if seen.
+func (ev *env) exec(list []ast.Stmt, tracing bool, top bool, chain *[]string, routesAdded *bool) {
+	for _, st := range list {
 		switch s := st.(type) {
 		case *ast.AssignStmt:
-			if len(s.Lhs) == 1 && len(s.Rhs) == 1 {
-				switch render(s.Lhs[0]) {
-				case "router":
-					r := render(s.Rhs[0])
+			if len(s.Lhs) != len(s.Rhs) {
+				// multi-value call (x, err := f()): must not bind a handler variable
+				for _, l := range s.Lhs {
+					if _, tracked := ev.vars[render(l)]; tracked || render(l) == ev.router {
+						die("handler variable %s assigned from a multi-value expression", render(l))
+					}
+				}
+				continue
+			}
+			for i := range s.Lhs {
+				name := render(s.Lhs[i])
+				rhs := s.Rhs[i]
+				r := render(rhs)
+				switch {
+				case strings.HasPrefix(r, "mux.NewRouter()"):
 					switch r {
 					case "mux.NewRouter().StrictSlash(true)":
 						ev.strict = true
@@ -364,53 +401,78 @@ func extractChain(f *ast.File) (plain, tracing []string, strict bool) {
 					default:
 						die("unrecognised router construction %s", r)
 					}
-					ev.sawRtr = true
-				case "handler":
-					ev.handler = ev.layers(s.Rhs[0])
-				case "s":
-					u, ok := s.Rhs[0].(*ast.UnaryExpr)
-					if !ok {
-						die("s := is not &http.Server{...}")
+					if ev.router != "" && ev.router != name {
+						die("a second router %s", name)
 					}
-					cl, ok := u.X.(*ast.CompositeLit)
-					if !ok || render(cl.Type) != "http.Server" {
-						die("s := is not &http.Server{...}")
-					}
-					for _, el := range cl.Elts {
-						kv := el.(*ast.KeyValueExpr)
-						if render(kv.Key) == "Handler" {
-							plain = ev.layers(kv.Value)
-							if handlerTracing != nil {
-								save := ev.handler
-								ev.handler = handlerTracing
-								tracing = ev.layers(kv.Value)
-								ev.handler = save
-							}
-							serverSeen = true
+					ev.router = name
+					continue
+				}
+				if u, ok := rhs.(*ast.UnaryExpr); ok && u.Op == token.AND {
+					if cl, ok := u.X.(*ast.CompositeLit); ok && render(cl.Type) == "http.Server" {
+						if !top {
+							die("http.Server built inside a conditional")
 						}
+						if *chain != nil {
+							die("a second http.Server literal")
+						}
+						for _, el := range cl.Elts {
+							kv := el.(*ast.KeyValueExpr)
+							if render(kv.Key) == "Handler" {
+								l, ok := ev.layers(kv.Value)
+								if !ok {
+									die("http.Server Handler is not a handler expression: %s", render(kv.Value))
+								}
+								*chain = l
+							}
+						}
+						if *chain == nil {
+							die("http.Server literal without Handler")
+						}
+						ev.server = name
+						continue
 					}
+				}
+				if l, ok := ev.layers(rhs); ok {
+					ev.vars[name] = l
+					continue
+				}
+				if _, tracked := ev.vars[name]; tracked || name == ev.router {
+					die("handler variable %s assigned something that is not a handler expression: %s", name, r)
+				}
+				if ev.mentionsHandler(rhs) {
+					die("a handler is used in an expression the translator does not know: %s", r)
 				}
 			}
 		case *ast.IfStmt:
-			if render(s.Cond) == "cfg.Tracing" {
-				for _, b := range s.Body.List {
-					as, ok := b.(*ast.AssignStmt)
-					if !ok || len(as.Lhs) != 1 || render(as.Lhs[0]) != "handler" {
-						die("if cfg.Tracing: unrecognised statement")
+			cond := render(s.Cond)
+			switch cond {
+			case "cfg.Tracing", "!cfg.Tracing":
+				if s.Init != nil {
+					die("if with init on cfg.Tracing")
+				}
+				takeBody := tracing == (cond == "cfg.Tracing")
+				if takeBody {
+					ev.exec(s.Body.List, tracing, false, chain, routesAdded)
+				} else if s.Else != nil {
+					blk, ok := s.Else.(*ast.BlockStmt)
+					if !ok {
+						die("else-if on cfg.Tracing")
 					}
-					handlerTracing = ev.layers(as.Rhs[0])
+					ev.exec(blk.List, tracing, false, chain, routesAdded)
 				}
-				if s.Else != nil {
-					die("if cfg.Tracing has an else branch")
-				}
-			} else {
-				// other ifs must not touch handler / router / s.Handler
+			default:
+				// any other conditional must not assign a handler variable, the router or a Handler field
 				ast.Inspect(s, func(n ast.Node) bool {
 					if as, ok := n.(*ast.AssignStmt); ok {
 						for _, l := range as.Lhs {
-							switch render(l) {
-							case "handler", "router", "s.Handler", "api.server.Handler":
-								die("conditional assignment to %s", render(l))
+							name := render(l)
+							if _, tracked := ev.vars[name]; tracked || name == ev.router || strings.HasSuffix(name, ".Handler") {
+								die("conditional (%s) assignment to %s", cond, name)
+							}
+						}
+						for _, r := range as.Rhs {
+							if _, ok := ev.layers(r); ok {
+								die("conditional (%s) construction of a handler: %s", cond, render(r))
 							}
 						}
 					}
@@ -418,12 +480,74 @@ func extractChain(f *ast.File) (plain, tracing []string, strict bool) {
 				})
 			}
 		case *ast.ExprStmt:
-			if render(s.X) == "api.addRoutes(router)" {
-				routesAdded = true
+			if ce, ok := s.X.(*ast.CallExpr); ok && render(ce.Fun) == "api.addRoutes" {
+				if len(ce.Args) != 1 || render(ce.Args[0]) != ev.router {
+					die("api.addRoutes is not given the router")
+				}
+				if !top {
+					die("api.addRoutes called inside a conditional")
+				}
+				*routesAdded = true
 			}
+		case *ast.ForStmt, *ast.RangeStmt, *ast.SwitchStmt, *ast.TypeSwitchStmt, *ast.SelectStmt, *ast.GoStmt, *ast.DeferStmt:
+			ast.Inspect(s, func(n ast.Node) bool {
+				if as, ok := n.(*ast.AssignStmt); ok {
+					for _, l := range as.Lhs {
+						name := render(l)
+						if _, tracked := ev.vars[name]; tracked || name == ev.router || strings.HasSuffix(name, ".Handler") {
+							die("assignment to %s inside a loop / switch / goroutine", name)
+						}
+					}
+				}
+				return true
+			})
 		}
 	}
-	// no later assignment to s.Handler anywhere in the file
+}
+
+// extractChain: the chain served for cfg.Tracing = false and = true.
+func extractChain(f *ast.File) (plain, tracing []string, strict bool) {
+	fd := findFunc(f, "NewAPIWithHost", false)
+	if fd == nil {
+		die("NewAPIWithHost not found")
+	}
+	run := func(tr bool) ([]string, bool) {
+		ev := &env{vars: map[string][]string{}}
+		var chain []string
+		added := false
+		ev.exec(fd.Body.List, tr, true, &chain, &added)
+		if chain == nil {
+			die("http.Server Handler not found (Tracing=%v)", tr)
+		}
+		if !added {
+			die("api.addRoutes(router) not called in NewAPIWithHost")
+		}
+		if chain[len(chain)-1] != "router" {
+			die("the chain does not end at the router (Tracing=%v): %v", tr, chain)
+		}
+		// the API object must hold exactly this server
+		held := false
+		ast.Inspect(fd, func(n ast.Node) bool {
+			if cl, ok := n.(*ast.CompositeLit); ok && render(cl.Type) == "API" {
+				for _, el := range cl.Elts {
+					if kv, ok := el.(*ast.KeyValueExpr); ok && render(kv.Key) == "server" {
+						if render(kv.Value) != ev.server {
+							die("API.server is %s, not the http.Server built with the chain (%s)", render(kv.Value), ev.server)
+						}
+						held = true
+					}
+				}
+			}
+			return true
+		})
+		if !held {
+			die("the API literal does not set server")
+		}
+		return chain, ev.strict
+	}
+	plain, strict = run(false)
+	tracing, _ = run(true)
+	// the server built here is the one both listeners serve, and its Handler is assigned nowhere else
 	ast.Inspect(f, func(n ast.Node) bool {
 		if as, ok := n.(*ast.AssignStmt); ok {
 			for _, l := range as.Lhs {
@@ -435,16 +559,23 @@ func extractChain(f *ast.File) (plain, tracing []string, strict bool) {
 		}
 		return true
 	})
-	if !serverSeen || plain == nil {
-		die("http.Server Handler not found")
+	serves := 0
+	ast.Inspect(f, func(n ast.Node) bool {
+		if ce, ok := n.(*ast.CallExpr); ok {
+			fn := render(ce.Fun)
+			if strings.HasSuffix(fn, ".Serve") || strings.HasSuffix(fn, ".ServeTLS") || fn == "http.Serve" || fn == "http.ListenAndServe" {
+				if fn != "api.server.Serve" {
+					die("something other than api.server serves: %s", fn)
+				}
+				serves++
+			}
+		}
+		return true
+	})
+	if serves == 0 {
+		die("api.server.Serve is never called")
 	}
-	if !routesAdded {
-		die("api.addRoutes(router) not called in NewAPIWithHost")
-	}
-	if tracing == nil {
-		tracing = plain
-	}
-	return plain, tracing, ev.strict
+	return plain, tracing, strict
 }
 
 // RPC calls and helper uses of one function body
@@ -771,9 +902,8 @@ func main() {
 	} else {
 		fmt.Fprintf(&b, "def methodNotAllowedStatus : Option Nat := some %d\n", refusalOnly(f, mna))
 	}
-	b.WriteString("/-- handler wrapping order of NewAPIWithHost, outermost first -/\n")
-	fmt.Fprintf(&b, "def chain : List String := %s\n", leanList(plain))
-	fmt.Fprintf(&b, "def chainTracing : List String := %s\n\n", leanList(tracing))
+	b.WriteString("/-- handler wrapping order of NewAPIWithHost, outermost first, for cfg.Tracing = false / true -/\n")
+	fmt.Fprintf(&b, "def chain : Bool → List Layer\n  | false => %s\n  | true => %s\n\n", leanList(plain), leanList(tracing))
 	b.WriteString("/-- the decision logic of basicAuthHandler -/\n")
 	fmt.Fprintf(&b, "def authLogic : AuthLogic :=\n  { nilPassThrough := %v, okChecked := %v, cond := %s, noHeaderStatus := %d, mismatchStatus := %d }\n\n",
 		al.nilPass, al.okChecked, al.cond, al.noHeader, al.mismatch)
